@@ -166,6 +166,37 @@ def const_comparisons(ctx, b, const_suffix):
                     out.append({'point': b.pstart[bi] + si, 'op': st['rv']['op'], 'x': a, 'res': st['place']['l'], 'via': None})
                 elif na and na.endswith(const_suffix) and not nb:
                     out.append({'point': b.pstart[bi] + si, 'op': swap[st['rv']['op']], 'x': bb, 'res': st['place']['l'], 'via': None})
+                else:
+                    # the constant moved to the other side: `t + CONST OP K` (K another named constant) is
+                    # `K - t OP' CONST` with the operator flipped (`cursor + HEADER_LEN <= BLOCK` is `remaining >= HEADER_LEN`)
+                    def sum_with_const(op):
+                        if op.get('k') not in ('copy', 'move'):
+                            return False
+                        found, only_add = [False], [True]
+                        def walk(o, d=0):
+                            if o.get('k') == 'const':
+                                if (op_const_named(o) or '').endswith(const_suffix):
+                                    found[0] = True
+                                return
+                            if o.get('k') not in ('copy', 'move') or d > 8:
+                                return
+                            ds = b.defs.get(o['place']['l'], [])
+                            if len(ds) != 1 or ds[0][1] != 'assign':
+                                return
+                            rv = ds[0][2]['rv']
+                            if rv['k'] in ('use', 'cast'):
+                                walk(rv['op'], d + 1)
+                            elif rv['k'] == 'binop':
+                                if not rv['op'].startswith('Add'):
+                                    only_add[0] = False
+                                walk(rv['a'], d + 1)
+                                walk(rv['b'], d + 1)
+                        walk(op)
+                        return found[0] and only_add[0]
+                    if nb and not nb.endswith(const_suffix) and sum_with_const(a):
+                        out.append({'point': b.pstart[bi] + si, 'op': swap[st['rv']['op']], 'x': a, 'res': st['place']['l'], 'via': 'sum'})
+                    elif na and not na.endswith(const_suffix) and sum_with_const(bb):
+                        out.append({'point': b.pstart[bi] + si, 'op': st['rv']['op'], 'x': bb, 'res': st['place']['l'], 'via': 'sum'})
     for cs in b.calls:
         if cs.node is None or cs.node not in ctx.f.bodies or cs.dest_local() is None:
             continue
